@@ -1,23 +1,32 @@
 (** C01 — a command line is accepted iff it is a sentence of the spec's language.
-    PARTIAL, with one step missing. Proved, for every spec that compiles, every declaration list,
-    command line and environment ([C01_structural]): the compiled command accepts a command line iff
-    the spec's syntax tree, read as a regular expression over matcher steps ([Accepts]: juxtaposition
-    is composition, | is union, [ ] is optional, ... is one-or-more; a leaf is one call of the leaf's
-    matcher on what is left, after the one-time drop of a leading "--"), has a reading that consumes
-    the whole line, and the bindings it records are those of such a reading. The chain is
+    PROVED on the model, with the option group greedy (K2) and, for the symbol-level statement, on
+    specs without "--" and command lines that read cleanly (decidable, PC10.v).
+    [C01_symbols]: a compiled command whose spec has no "--" accepts a cleanly read command line iff
+    the SYMBOLS of the reading — occurrences (option, value), positionals, the first "--" — are a
+    sentence of the spec read as a regular expression ([SymProofs.VAccepts]): juxtaposition is ordered
+    concatenation, | is choice, [ ] is optional, ... is one or more, at any nesting depth; an argument
+    takes the next symbol when it is a positional; an option takes the first occurrence of itself in
+    the leading run of occurrences ([View.take]) — so adjacent occurrences are matched in any order
+    among themselves while their position relative to the positionals is enforced — or nothing when
+    backed by the environment; a folded group or OPTIONS takes its listed options in any order,
+    greedily: every occurrence in the run ([VGreedy]; known finding K2: it never takes a sub-multiset,
+    [C01_greedy_refuted]). The bindings recorded are those of such a sentence.
+    [C01_structural] (every spec that compiles, "--" included, every command line): the compiled
+    command accepts iff the spec's syntax tree, as a regular expression over matcher steps
+    ([Accepts]), has a reading that consumes the whole line. The chain:
       parser output has no empty group ([parser_ne])
       -> the Thompson construction has exactly the runs of the expression ([C01_thompson_correct])
       -> Prepare (shortcut elimination with the D2 repair, then the sort) keeps them ([C01_prepare_preserves_runs])
-      -> the visited-set depth-first search is sound, terminates and is complete
-         ([C01_accepts_only_accepting_runs], [C01_search_decides], [C01_search_complete]).
-    NOT proved (T4): that reading the leaves as matcher calls coincides with the token-level
-    sentences of the reference semantics of RefSem.v (where an option matcher may be satisfied by
-    occurrences anywhere before "--", and the option group is greedy: K2). That step is covered on
-    every run by the check: the implementation's verdict is compared with [RefSem.r_match], an
-    independent backtracking matcher over symbol sequences, on every claimed case, and the
-    automaton of every generated spec is compared state by state with the implementation's. *)
+      -> the visited-set depth-first search is sound, terminates and is complete — backtracking
+         completeness, for command lines of any length
+         ([C01_accepts_only_accepting_runs], [C01_search_decides], [C01_search_complete])
+      -> matcher steps on tokens are steps on symbols (T4a, [SymProofs.step_fwd] / [step_bwd]).
+    NOT proved: that the executable reference matcher [RefSem.r_match] which the test oracle runs decides
+    [VAccepts] (T4b), and the symbol-level statement for specs with "--" (crossing the atom re-reads the
+    remaining tokens as positionals, which is not a function of the symbols). Both are covered on
+    every run: the implementation's verdict is compared with [r_match] on every claimed case. *)
 From MowCli Require Import Base Parser Nfa Matchers Apply Values Flow Cmd RefSem ApplyProofs TermProofs NfaProofs CompleteProofs PrepareProofs ThompsonProofs StructProofs.
-From MowCli Require Import Lexer.
+From MowCli Require Import Lexer View SymProofs.
 
 Theorem C01_accepts_only_accepting_runs :
   forall D g start args bs,
@@ -93,6 +102,27 @@ Theorem C01_structural_bindings :
       Accepts (optinfo_of opts) (length opts) e (argv, false) bs.
 Proof. exact compile_bindings_from_language. Qed.
 
+(** symbol level: specs without "--", command lines that read cleanly *)
+Theorem C01_matcher_steps_are_symbol_steps :
+  forall D, oi_lookup D s_dd = None -> oi_lookup D [c_dash; c_eq] = None ->
+  forall nopts e a u bs, seq_has_dd e = false -> ViewProofs.Reads D a u ->
+    (Accepts D nopts e (a, false) bs <-> VAccepts D nopts e (u, false) bs).
+Proof. exact accepts_iff_symbols. Qed.
+
+Theorem C01_symbols :
+  forall opts args spec i toks e a u,
+    compile opts args spec = IOk i ->
+    tokenize spec = LexOk toks ->
+    parse_tokens (lookup_name opts) (lookup_name args) (length spec) toks = ParseOk e ->
+    seq_has_dd e = false -> sane (optinfo_of opts) = true -> view (optinfo_of opts) a = Some u ->
+    ((exists bs, fsm_apply (optinfo_of opts) (i_graph i) (i_start i) a = AOk bs) <->
+     (exists bs, VAccepts (optinfo_of opts) (length opts) e (u, false) bs)) /\
+    (forall bs, fsm_apply (optinfo_of opts) (i_graph i) (i_start i) a = AOk bs ->
+                VAccepts (optinfo_of opts) (length opts) e (u, false) bs).
+Proof. exact compile_accepts_iff_symbols. Qed.
+
+Print Assumptions C01_matcher_steps_are_symbol_steps.
+Print Assumptions C01_symbols.
 Print Assumptions C01_thompson_correct.
 Print Assumptions C01_structural.
 Print Assumptions C01_structural_bindings.
